@@ -104,6 +104,16 @@ CLIENT_CAPABILITY_EXCLUSIONS: list[dict] = [
 COMMAND_TIMEOUT = 120
 
 
+####################################################################
+#
+def _one_line(text: object) -> str:
+    """
+    The human readable text of a response can not contain line breaks
+    (it frequently quotes what the client sent, which may be a literal.)
+    """
+    return " ".join(str(text).splitlines()).strip()
+
+
 ########################################################################
 ########################################################################
 #
@@ -273,7 +283,7 @@ class BaseClientHandler:
             )
             if self.server and imap_command.command:
                 self.server.num_failed_commands[imap_command.command] += 1
-            result = f"{imap_command.tag} NO {e}\r\n"
+            result = f"{imap_command.tag} NO {_one_line(e)}\r\n"
             await self.client.push(result)
             return
         except Bad as e:
@@ -282,7 +292,7 @@ class BaseClientHandler:
             )
             if self.server and imap_command.command:
                 self.server.num_failed_commands[imap_command.command] += 1
-            result = f"{imap_command.tag} BAD {e}\r\n"
+            result = f"{imap_command.tag} BAD {_one_line(e)}\r\n"
             await self.client.push(result)
             return
         except TimeoutError:
@@ -295,7 +305,10 @@ class BaseClientHandler:
             )
             if self.server and imap_command.command:
                 self.server.num_failed_commands[imap_command.command] += 1
-            result = f"{imap_command.tag} BAD Command timed out: '{imap_command.qstr()}'"
+            result = (
+                f"{imap_command.tag} BAD Command timed out: "
+                f"'{imap_command.qstr()}'\r\n"
+            )
             try:
                 await self.client.push(result)
             except Exception:
@@ -325,9 +338,12 @@ class BaseClientHandler:
 
             if self.server and imap_command.command:
                 self.server.num_failed_commands[imap_command.command] += 1
-            result = f"{imap_command.tag} BAD Unhandled exception: {e}"
+            result = (
+                f"{imap_command.tag} BAD Unhandled exception: "
+                f"{_one_line(e)}\r\n"
+            )
             try:
-                await self.client.push(result.strip())
+                await self.client.push(result)
             except Exception:
                 pass
             raise
